@@ -1219,13 +1219,18 @@ impl<'a> TypeHumanizer<'a> {
 
 /// Write an escaped version of `s` directly into `w`.
 fn write_hover_escape_string<W: Write>(s: &str, w: &mut W) -> fmt::Result {
-    for ch in s.chars() {
+    let mut chars = s.chars().peekable();
+    while let Some(ch) = chars.next() {
         match ch {
             '\\' => w.write_str("\\\\")?,
             '"' => w.write_str("\\\"")?,
             '\n' => w.write_str("\\n")?,
             '\r' => w.write_str("\\r")?,
             '\t' => w.write_str("\\t")?,
+            // a decimal escape takes up to three digits: pad it when a digit follows
+            '\u{1b}' if chars.peek().is_some_and(|next| next.is_ascii_digit()) => {
+                w.write_str("\\027")?
+            }
             '\u{1b}' => w.write_str("\\27")?,
             ch if ch.is_control() => {
                 let code = ch as u32;
